@@ -210,12 +210,24 @@ class LibMixin:
                     self.ev(a, st)
                 except Unsupported:
                     pass
-            self.trace_event(st, "atomic." + m)
+            fld = ""
+            fx = e["Fun"].get("X") if e["Fun"].get("k") == "SelectorExpr" else None
+            if fx is not None and fx.get("k") == "SelectorExpr":
+                fld = ":" + fx["Sel"]["Name"]
+            nm = "atomic." + m + fld
+            self.trace_event(st, nm)
             t = self.T(e) if "t" in e else None
             if t is None or (t.under().k == "tuple" and not t.under().d.get("elems")):
                 return TupleV([])
             v = self.fresh_value(t, "atomic")
             self.type_facts(st, v, t, param=True)
+            if not self.spec:
+                try:
+                    for k_, tm in enumerate(flatten(v, t)):
+                        st.ghost["ret:%s:%d" % (nm, k_)] = tm
+                    self.arg_types[(nm, "ret")] = t
+                except Unsupported:
+                    pass
             return v
         if callee == "sync.(*Once).Do":
             self.models_used.add("sync.Once.Do (runs f iff the once has not fired, then marks it fired; at-most-once is trusted)")
